@@ -24,7 +24,7 @@ func init() {
 		ID:    "C08",
 		Level: "exploration",
 		Rule: "from every well-formed stream of <=2 lists (C07 shapes): every truncation point; every value of a boundary alphabet in each of the three size fields of each list, and every pair of fields (deviation bound 2); " +
-			"each type GUID replaced by every signature-scheme GUID the decoder does not handle and by an unknown GUID; trailing garbage of every length 1..76. Oracle: library returns nil error => the reference decoder accepts the whole input " +
+			"each type GUID replaced by every signature-scheme GUID the decoder does not handle and by an unknown GUID; trailing garbage of every length 1..76; lists with a 1 MiB+ entry truncated near every power-of-two boundary and with size fields overstating the data; every derived input also through byte-at-a-time, half-sized and data-with-EOF readers. Oracle: library returns nil error => the reference decoder accepts the whole input " +
 			"and the returned lists equal the reference's. non-trivial = derived input differs from its seed and is rejected by the reference (the library must report an error); distinct = distinct input bytes",
 		Assumptions: []string{"reference decoder refesl applies exactly the statement's rule", "a zero-entry list whose SignatureSize is below 16 is not judged (size equation holds, 'at least 16' does not; the library's own NewSignatureList produces it)"},
 		Units: func(tier string) []string {
